@@ -105,6 +105,8 @@ pub struct Stats {
     pub excluded: u64,
     pub rejected: u64,
     pub frozen: bool,
+    pub next_sample_at: u64,
+    pub sample_gap: u64,
 }
 
 impl Stats {
@@ -115,10 +117,12 @@ impl Stats {
             nontrivial_cap: 3_000_000,
             classes: BTreeMap::new(),
             samples: Vec::new(),
-            sample_cap: 6,
+            sample_cap: 2,
             excluded: 0,
             rejected: 0,
             frozen: false,
+            next_sample_at: 0,
+            sample_gap: 400,
         }
     }
     pub fn eval(&mut self, n: u64) {
@@ -146,12 +150,15 @@ impl Stats {
             self.classes.insert(name.to_string(), n);
         }
     }
+    /// samples are spread out: after one is taken the next is accepted only a few hundred
+    /// evaluations later, so that they do not all come from one case
     pub fn want_sample(&self) -> bool {
-        !self.frozen && self.samples.len() < self.sample_cap
+        !self.frozen && self.samples.len() < self.sample_cap && self.evaluations >= self.next_sample_at
     }
     pub fn sample(&mut self, v: Value) {
         if self.want_sample() {
             self.samples.push(v);
+            self.next_sample_at = self.evaluations + self.sample_gap;
         }
     }
 }
@@ -172,6 +179,7 @@ pub struct WorkerCtx {
     pub n: u64,
     pub dir: PathBuf,
     pub stats: RefCell<Stats>,
+    pub current: RefCell<Option<std::fs::File>>,
 }
 
 impl WorkerCtx {
@@ -188,9 +196,16 @@ impl WorkerCtx {
     }
     /// remember the case about to be executed, so that a crash (signal) can be replayed
     pub fn about_to_run(&self, case: &Value) {
-        let p = self.dir.join(format!("current-{}.json", self.idx));
-        if let Ok(mut f) = std::fs::File::create(&p) {
-            let _ = f.write_all(case.to_string().as_bytes());
+        use std::io::{Seek, SeekFrom};
+        let mut slot = self.current.borrow_mut();
+        if slot.is_none() {
+            *slot = std::fs::File::create(self.dir.join(format!("current-{}.json", self.idx))).ok();
+        }
+        if let Some(f) = slot.as_mut() {
+            let text = case.to_string();
+            let _ = f.seek(SeekFrom::Start(0));
+            let _ = f.write_all(text.as_bytes());
+            let _ = f.set_len(text.len() as u64);
         }
     }
 }
@@ -369,7 +384,7 @@ pub fn load_known() -> Vec<Known> {
 
 pub fn worker_main(def: &CheckDef, tier: Tier, seed: u64, idx: u64, n: u64, dir: &Path) -> i32 {
     recording_panics();
-    let ctx = WorkerCtx { id: def.id.to_string(), tier, seed, idx, n, dir: dir.to_path_buf(), stats: RefCell::new(Stats::new()) };
+    let ctx = WorkerCtx { id: def.id.to_string(), tier, seed, idx, n, dir: dir.to_path_buf(), stats: RefCell::new(Stats::new()), current: RefCell::new(None) };
     let t0 = Instant::now();
     let res = (def.worker)(&ctx);
     let st = ctx.stats.borrow();
@@ -465,7 +480,7 @@ pub fn driver_main(def: &CheckDef, tier: Tier, seed: u64) -> i32 {
     let t0 = Instant::now();
     let id = def.id;
     if def.uses_reference {
-        if let Err(e) = refchess::self_test() {
+        if let Err(e) = refchess::self_test(tier == Tier::Thorough) {
             eprintln!("ORACLE SELF-TEST FAILED (inconclusive, not a violation): {e}");
             return 2;
         }
